@@ -70,6 +70,10 @@ structure World (D S F : Type) where
   dx : F
   /-- the PDF set has a PDF for this grid point (`PDFSet.get_pdf` raises `KeyError` otherwise) -/
   inGrid : F → Bool
+  /-- event selection: the positions (in the array of selected events) of the events that are paired
+      with source `k` — `evt_idxs[src_idxs == k]` of `TrialDataManager.src_evt_idxs`; without an event
+      selection method every source is paired with every event: `List.range n` -/
+  sel : D → S → Nat → List Nat
 
 /-- a parameter point: value per source and its grid key per source
     (Linear: `round_to_lower_grid_point x`, Parabola: `round_to_nearest_grid_point x`) -/
@@ -188,16 +192,26 @@ def coefPure (W : World D S F) (parabola : Bool) (d : D) (s : S) (key : List F) 
   else
     linCoefs key (key.map W.up) (manAll W d s 0 key) (manAll W d s 0 (key.map W.up))
 
-/-- ratio and gradient blocks (one per source) from coefficients and background values -/
-def finish (parabola : Bool) (q : Query F) (coefs : List (Coef F)) (b : List F) :
+/-- `np.take(b, idx)` for in-range indices (an out-of-range index would raise; it is dropped here and
+shows up as a shape mismatch) -/
+def pick (b : List F) (idx : List Nat) : List F := idx.filterMap (fun i => b[i]?)
+
+/-- `tdm.broadcast_selected_events_arrays_to_values_arrays`: the background values of the events
+paired with each of the `K` sources -/
+def bkgBlocks (W : World D S F) (d : D) (s : S) (K : Nat) (b : List F) : List (List F) :=
+  (List.range K).map (fun k => pick b (W.sel d s k))
+
+/-- ratio and gradient blocks (one per source) from coefficients and the per-source background
+values -/
+def finish (parabola : Bool) (q : Query F) (coefs : List (Coef F)) (bks : List (List F)) :
     List (List F) × List (List F) :=
   let sig := if parabola then parVals q.x q.key coefs else linVals q.x coefs
-  (sig.map (fun vg => ratioOf vg.1 b), sig.map (fun vg => gradOf vg.2 b))
+  (List.zipWith (fun vg bk => ratioOf vg.1 bk) sig bks, List.zipWith (fun vg bk => gradOf vg.2 bk) sig bks)
 
 /-- **specification**: the PDF-ratio values and gradients of a trial — no state at all -/
 def evalPure (W : World D S F) (parabola : Bool) (d : D) (s : S) (q : Query F) :
     List (List F) × List (List F) :=
-  finish parabola q (coefPure W parabola d s q.key) (W.bkg d s)
+  finish parabola q (coefPure W parabola d s q.key) (bkgBlocks W d s q.key.length (W.bkg d s))
 
 end pure
 
@@ -274,7 +288,7 @@ def evalC (W : World D S F) (hit : F → F → Bool) (cfg : Cfg) (st : St D S F)
     St D S F × Out F :=
   let r := interpCall W hit cfg st q
   let b := pdGet cfg.cacheBkg st.sid (W.bkg st.data st.src) st.bkgc 0
-  let o := finish cfg.parabola q r.1 b.1
+  let o := finish cfg.parabola q r.1 (bkgBlocks W st.data st.src q.key.length b.1)
   ({ st with interp := r.2.1, pdc := r.2.2.1, bkgc := b.2.1, nsg := some (st.data, st.src, q) },
    ⟨o.1, o.2, r.2.2.2.1, r.2.2.2.2, b.2.2⟩)
 
